@@ -680,7 +680,7 @@ class Interp:
             if nm in ("typing.cast", "typing_extensions.cast") and len(args) == 2:
                 self._note_cast(n, args[1])
                 return args[1]
-            if nm in ("collections.deque",) and not args:
+            if nm in ("collections.deque",) and not args and not kwargs:
                 return self.new_list([], n, tree)
             if nm == "collections.defaultdict":
                 return self.new_dict([], n, tree)
@@ -723,7 +723,7 @@ class Interp:
         if name == "cast" and len(args) == 2:
             self._note_cast(n, args[1])
             return args[1]
-        if name == "deque":
+        if name == "deque" and not kwargs:
             return self.new_list([("s", a) for a in args], n, tree)
         if name in ("print",):
             tree.append(("extcall", name, tuple(args), line))
